@@ -286,6 +286,7 @@ let rec handle (line : string) : string =
      | M.Ok ms -> "OK " ^ String.concat " " (List.map bmsg_str ms)
      | M.Err e -> "ERR " ^ berr_str e)
   (* ---------------- C16 configuration ---------------- *)
+  | ["CFGLIFE"; _] -> "SKIP"   (* the options a client really uses over its life: harness predicate against C16_defaults *)
   | ["CFGREAD"; _; _] -> "SKIP"   (* the buffer a client really reads with: decided by the harness predicate against C16_defaults *)
   | ["CFG"; addr; user; pass; key; port; hb; conn; send; recv; ck; rbuf] ->
     let cks = match ck with "nil" -> M.CNil | "true" -> M.CBool true | "false" -> M.CBool false | k -> M.COther (n_of_str k) in
